@@ -196,8 +196,8 @@ def install():
     ap.CalculateFeedAndMeat.__init__ = whi
 
 
-def run_pipeline(case, share_opts=False):
-    """Run one (country, option vector) through the real three-round pipeline."""
+def run_pipeline(case, share_opts=False, runner=None):
+    """Run one (country, option vector) through the real three-round pipeline (on the given ScenarioRunnerNoTrade object, or a new one)."""
     global CUR
     install()
     from src.scenarios.run_model_no_trade import ScenarioRunnerNoTrade
@@ -221,12 +221,16 @@ def run_pipeline(case, share_opts=False):
             res = r.run_and_analyze_scenario(c, t, l, False, False, "_world", row, False, "world", "WOR", title=title)
             tr.result = res
         else:
-            out = ScenarioRunnerNoTrade().run_model_no_trade(
+            out = (runner if runner is not None else ScenarioRunnerNoTrade()).run_model_no_trade(
                 title=title, create_pptx_with_all_countries=False, show_country_figures=False,
                 show_map_figures=False, add_map_slide_to_pptx=False, scenario_option=opts,
                 countries_list=[case["iso"]], return_results=True)
             tr.aggregate = out[1:3]
-            vals = list(out[3].values())
+            tr.returned_countries = sorted(out[3].keys())
+            from vlib import workload as _wl
+
+            own = {r["iso3"]: r["country"] for r in _wl.country_table()}.get(case["iso"])
+            vals = [out[3][own]] if own in out[3] else list(out[3].values())
             tr.result = vals[0] if vals else None
             if not vals:
                 tr.error = "country not run (no result returned)"
